@@ -102,6 +102,18 @@ type c10state struct {
 	S  [poolSize]*secp256k1.Scalar
 	ME [poolSize]ref.Point
 	MS [poolSize]*big.Int
+	// observers taken as method values when the variable's object was first seen, and called after every later step: a method
+	// value of a pointer method stays bound to the object, whatever the object held when it was taken
+	boundE [poolSize]struct {
+		of   *secp256k1.Element
+		enc  func() []byte
+		isID func() bool
+	}
+	boundS [poolSize]struct {
+		of     *secp256k1.Scalar
+		enc    func() []byte
+		isZero func() bool
+	}
 }
 
 var c10dst = []byte("VERIF-C10-history-dst")
@@ -122,6 +134,16 @@ func (st *c10state) check(step int, a act) error {
 		_ = fmt.Sprintf(c10verbs, st.E[a.R], st.S[a.R])
 	}
 	for i := 0; i < poolSize; i++ {
+		if be := &st.boundE[i]; be.of != st.E[i] {
+			be.of, be.enc, be.isID = st.E[i], st.E[i].Encode, st.E[i].IsIdentity
+		} else if enc := be.enc(); !bytes.Equal(enc, ref.Compress(st.ME[i])) || be.isID() != st.ME[i].Inf {
+			return gen.Fail("history/bound-observer", "%s: the method values Encode / IsIdentity taken from element %d earlier answer %x / %v, model %x", where, i, enc, be.isID(), ref.Compress(st.ME[i]))
+		}
+		if bs := &st.boundS[i]; bs.of != st.S[i] {
+			bs.of, bs.enc, bs.isZero = st.S[i], st.S[i].Encode, st.S[i].IsZero
+		} else if enc := bs.enc(); !bytes.Equal(enc, ref.Bytes32(st.MS[i])) || bs.isZero() != (st.MS[i].Sign() == 0) {
+			return gen.Fail("history/bound-observer", "%s: the method values Encode / IsZero taken from scalar %d earlier answer %x / %v, model %x", where, i, enc, bs.isZero(), st.MS[i])
+		}
 		if enc := st.E[i].Encode(); !bytes.Equal(enc, ref.Compress(st.ME[i])) {
 			cls := "history/element-value"
 			if i != a.R || a.Op[0] != 'e' {
